@@ -44,7 +44,7 @@ def insertSorted (x : Nat) : List Nat → List Nat
 def keyifyL (l : List Nat) : List Nat := l.foldr insertSorted []
 
 inductive Err where
-  | index | key | value
+  | index | key | value | other
 deriving DecidableEq, Repr
 
 structure Raw where
@@ -406,5 +406,46 @@ def Block.inputFixed (b : Block) : View := b.result
 /-- an object is coherent when its corners spell its faces and its cache (if any) was computed from its faces -/
 def View.coherent (v : View) : Bool :=
   v.corners == cornerCount v.raw && (match v.cache with | none => true | some fs => fs == v.raw.faces)
+
+/-! ### `split_double_boundary_edges_triangles` (round 5) -/
+
+/-- `deg[a] += 1` -/
+def bump (deg : List Nat) (a : Nat) : Except Err (List Nat) :=
+  match deg[a]? with
+  | some d => .ok (deg.set a (d + 1))
+  | none => .error Err.index
+
+/-- `deg = [0]*len(vertices); for (a,b) in edges: deg[a] += 1; deg[b] += 1` -/
+def degrees (m : Raw) : Except Err (List Nat) :=
+  foldE (fun deg e => match bump deg e.1 with | .error er => .error er | .ok d => bump d e.2)
+    (List.replicate m.verts.length 0) m.edges
+
+/-- the scan of one face: the first corner of degree < 2 raises ("Isolated vertex"), the first corner of degree 2 makes the
+face a problem face (`break`), otherwise the face is left alone -/
+def scanFace (deg : List Nat) : List Nat → Except Err Bool
+  | [] => .ok false
+  | v :: t =>
+    match deg[v]? with
+    | none => .error Err.index
+    | some d => if d < 2 then .error Err.other else if d = 2 then .ok true else scanFace deg t
+
+/-- indices (counted from `k`) of the flags that are set -/
+def pbOf : Nat → List Bool → List Nat
+  | _, [] => []
+  | k, b :: t => (if b then [k] else []) ++ pbOf (k + 1) t
+
+/-- `split_double_boundary_edges_triangles`: every face with a corner of degree 2 is split as a fan inside ONE editing block
+(whose exit prepares the data); without such a face the mesh is returned as it is -/
+def splitDoubleBoundary (m : Raw) : Except Err Raw :=
+  match degrees m with
+  | .error er => .error er
+  | .ok deg =>
+    match mapE (scanFace deg) m.faces with
+    | .error er => .error er
+    | .ok flags =>
+      if pbOf 0 flags = [] then .ok m
+      else match foldE splitFaceAsFan m (pbOf 0 flags) with
+        | .error er => .error er
+        | .ok m' => .ok (prepare m')
 
 end Mouette.Subdiv
